@@ -71,7 +71,7 @@ Print Assumptions json_element_mirrors_processed_steps.
 (* non-vacuity: a feature-level scenario followed by a rule with background (the shape that used
    to put the status on the background element) *)
 Example json_status_goes_to_the_scenario_element :
-  let cfg := mkCfgData false false true TTrue [] [] [] 99 false None in
+  let cfg := mkCfgData false false true TTrue [] [] [] 99 false None [] in
   let f := mkFeature 1 [] (Some [mkStep KPass 1])
              [FItem (SScen (mkScen 2 [] [mkStep KFail 2; mkStep KPass 3]));
               FRule (mkRule 3 [] (Some [mkStep KPass 4]) [SScen (mkScen 5 [] [mkStep KPass 6])])] in
